@@ -564,6 +564,12 @@ class RxWorld:
                 return False
             if exp[0] == 'exc':
                 if exp[1] != got[1]:
+                    # when several operands fail at once, which failure surfaces depends on the evaluation order of the
+                    # operands (Python: object, attribute, then arguments); any operand's own failure is acceptable
+                    others = {plain(c)[1] for c in self.children(nodes[j]) if plain(c)[0] == 'exc'}
+                    if got[1] in others:
+                        out.stats['dontcare.which_of_several_failing_operands_surfaces'] += 1
+                        return True
                     viol('C09.value', step, f"{label} node {j} {desc}: reactive raised {got[1]}, plain Python raises {exp[1]}; inputs {vals}")
                     return False
                 out.stats['fault.node_raised_as_python'] += 1
